@@ -99,6 +99,13 @@ func runC18(c *Ctx, r *Rec) {
 			if bad == "" {
 				bad = resultSharesWithReceiver(fa, sf)
 			}
+			if _, isIface := rt.Underlying().(*types.Interface); isIface && isCollectionLike(rt) {
+				if w := nilResultWitness(c, fd, i, 0, map[*ast.FuncDecl]bool{}); w != "" {
+					r.fail("D2-result-is-a-collection", construct, c.pos(fd.Pos()), "the nil at "+w+" is returned in place of a "+shortType(rt)+": the caller's first use of the result (GetSize, GetIterator, ...) dereferences nil; an empty result is an empty collection")
+				} else {
+					r.ok("D2-result-is-a-collection", construct, c.pos(fd.Pos()), "no nil literal reaches the result")
+				}
+			}
 			r.check(bad == "", "D2-result-fresh", construct, c.pos(fd.Pos()), "allocated in this call (or by a callee's fresh result); no storage of the receiver or of an argument inside", bad)
 		}
 		// ---- D3
